@@ -117,6 +117,11 @@ func RunOne(t *testing.T, cfg RunConfig, replay []int, withTrace bool) (rep *Run
 			}
 			rep.Sample = s.Sample
 			s.Shutdown()
+			if os.Getenv("VERIF_DEBUG_GOROUTINES") != "" {
+				buf := make([]byte, 1<<20)
+				n := runtime.Stack(buf, true)
+				fmt.Fprintf(os.Stderr, "GOROUTINES AT END:\n%s\n", buf[:n])
+			}
 		})
 	}()
 	rep.WallMs = wallNow() - t0
